@@ -18,7 +18,8 @@ rule = ("scripts = 'm frags <hex>,<hex>,..' (every fragment its own exact-size m
         "1 empty fragment) x {len; chr/rchr of each letter; str/rstr/fcn/rfcn "
         "with 3 sets; tok with 16 (tok,com,esc) combinations; cpy with every length -1..len+1 into 4 target layouts; "
         "read of every length 0..len+1 with and without target; argv/args with 5 separators; append, also with a failing "
-        "allocation}; refused appends: 1-3 fragments of sizes {0,3,61,62,64,65,130,200,2000} onto arrays of 0/2/64/70 bytes with "
+        "allocation}; command messages with command words of 1..4 and 120..135 bytes cut in 9 ways through mpt_dispatch_hash; fragment lists with "
+        "empty fragments in every position through mpt_stream_append (COBS stream and newline framing); refused appends: 1-3 fragments of sizes {0,3,61,62,64,65,130,200,2000} onto arrays of 0/2/64/70 bytes with "
         "the 1st/2nd/3rd allocation inside mpt_message_append failing (malloc wrapped); both tiers add a seeded "
         "sample of length 4 with 2 empty fragments, thorough also of length 5;  stream 2 = quoted/escaped/whitespace argument "
         "texts cut at every pair of positions, and every wrapped queue of capacity <= 4 through mpt_message_get; "
@@ -36,7 +37,8 @@ assumptions = [
     "array/buffer_alloc.c (64-byte header, 128-byte granules) to predict which fragment is refused",
     "mpt_memcpy is called with at least one source and one target fragment (with none it returns 0 for every length)",
 ]
-trusted = ["hand-written model MptModel/Impl/Message.lean tied to mptcore/message/*.c, array/array_message.c by harness/drv_message.c",
+trusted = ["hand-written model MptModel/Impl/Message.lean tied to mptcore/message/*.c, array/array_message.c, event/dispatch_hash.c (up to the "
+           "handler lookup) and mptio/stream/stream_append.c by harness/drv_message.c",
            "the character-level rules of mpt_memtok/mpt_message_argv (Spec/Flat.lean tokStep, argv) are shared by spec and model; "
            "their agreement with the C code on one fragment is correspondence evidence"]
 
@@ -104,7 +106,8 @@ def groups(frags, n):
         search += ["m chr %02x" % b, "m rchr %02x" % b]
     for s in SETS:
         search += ["m str " + s, "m rstr " + s, "m fcn " + s, "m rfcn " + s]
-    search += ["m append -", "m append 7a", "m append - nomem:1", "m append - nomem:2", "m append 7a nomem:1"]
+    search += ["m append -", "m append 7a", "m append - nomem:1", "m append - nomem:2", "m append 7a nomem:1",
+               "m sappend cobs", "m sappend nl", "m dhash"]
     tok = [f] + ["m tok %s %s %s" % t for t in TOKS]
     cpy = [f]
     for k in range(-1, n + 2):
@@ -174,6 +177,25 @@ def _scripts(tier, seed, scale=1):
                         out.append((nm + ":s" + s, [f, "m args " + s]))
                     out.append((nm + ":t", [f, "m tok 20 23 2722", "m tok null 23 27", "m tok null null 2722", "m tok 2c null null",
                                             "m tok null 23 null", "m tok 0a 23 22"]))
+    # command messages through mpt_dispatch_hash: type header + command word of 1..4 and 120..135 bytes (+ rest), cut
+    # inside the header, inside the word, at its end, with empty fragments; contiguous = the first cut
+    for sepb, tail in ((0x20, b" xy"), (0x00, b"\x00z"), (0x2c, b",r")):
+        for wl in list(range(1, 5)) + list(range(120, 136)) + ([300] if tier != "quick" else []):
+            word = bytes(0x61 + (i % 20) for i in range(wl))
+            body = bytes([4, sepb]) + word + tail
+            n = len(body)
+            cuts = [[n], [1, n - 1], [2, wl, n - 2 - wl], [2, 0, wl - 1, 1, 0, n - 2 - wl] if wl > 1 else [2, 0, 1, n - 3],
+                    [3, n - 3], [2 + wl // 2, n - 2 - wl // 2], [2 + wl - 1, 0, 0, 1, n - 2 - wl], [0, 2 + wl, n - 2 - wl], [2, wl + 1, n - 3 - wl]]
+            ops = []
+            for sizes in cuts:
+                ops += ["m frags " + cut(body, sizes), "m dhash"]
+            out.append(("dh:%02x/%d" % (sepb, wl), ops))
+    out.append(("dh:misc", ["m frags 04", "m dhash", "m frags 04,20", "m dhash", "m frags 0420,-,2020", "m dhash", "m frags 0500,6162,0063", "m dhash",
+                            "m frags 0420,2761,2062,2720", "m dhash", "m frags -", "m dhash", "m dhash x", "m sappend", "m sappend tcp"]))
+    # fragment lists through mpt_stream_append: empty fragments in every position, longer parts (COBS blocks of 254)
+    for sizes in ([0, 3, 0, 0, 2, 0], [1, 0, 1, 0, 1], [0, 0, 0], [300, 0, 10], [0, 253, 0, 1, 0], [254, 0, 254, 0], [5, 0]):
+        fr = ",".join(gen.hexs([0x41 + i] * n) for i, n in enumerate(sizes))
+        out.append(("sa:" + "x".join(map(str, sizes)), ["m frags " + fr, "m sappend cobs", "m sappend nl", "m read 2", "m sappend cobs", "m sappend nl"]))
     # refused appends: fragment sizes around the buffer capacities (64, 192, ...) so that the first, a middle or the
     # last fragment needs an allocation, on an empty array, a small one and one that is exactly full; the k-th
     # allocation inside the call fails
@@ -284,7 +306,10 @@ def crossed(op, ln):
     if kind == "append" and len(w) > 3:
         # refused after at least one fragment had been appended (allocs >= 2)
         return ret == "MissingBuffer" and f.get("allocs", "0").isdigit() and int(f["allocs"]) >= 2
-    if kind in ("len", "rchr", "rstr", "rfcn", "args", "append"):
+    if kind == "dhash":
+        # the command word is not contained in the fragment the header ends in
+        return ret == "called" and int(f.get("clen", "0")) >= 1
+    if kind in ("len", "rchr", "rstr", "rfcn", "args", "append", "sappend"):
         return True
     if kind in ("chr", "str", "fcn", "tok"):
         return ret == "none" or (ret is not None and ret.isdigit() and int(ret) >= u0)
